@@ -50,6 +50,24 @@ func ebnf(n node) string {
 	}
 }
 
+// ebnfHasModifier reports whether n is printed as an expression followed by a modifier.
+func ebnfHasModifier(n node) bool {
+	for {
+		switch t := n.(type) {
+		case *capture:
+			n = t.node
+			continue
+		case *group:
+			if t.mode == groupMatchOnce {
+				n = t.expr
+				continue
+			}
+			return true
+		}
+		return false
+	}
+}
+
 func buildEBNF(root bool, n node, seen map[node]bool, p *ebnfp, outp *[]*ebnfp) {
 	switch n := n.(type) {
 	case *disjunction:
@@ -128,12 +146,23 @@ func buildEBNF(root bool, n node, seen map[node]bool, p *ebnfp, outp *[]*ebnfp) 
 
 	case *negation:
 		p.out += "~"
+		paren := ebnfHasModifier(n.node)
+		if paren {
+			p.out += "("
+		}
 		buildEBNF(false, n.node, seen, p, outp)
+		if paren {
+			p.out += ")"
+		}
 
 	case *literal:
 		p.out += fmt.Sprintf("%q", n.s)
 
 	case *group:
+		paren := n.mode != groupMatchOnce && ebnfHasModifier(n.expr)
+		if paren {
+			p.out += "("
+		}
 		if child, ok := n.expr.(*group); ok && child.mode == groupMatchOnce {
 			buildEBNF(false, child.expr, seen, p, outp)
 		} else if child, ok := n.expr.(*capture); ok {
@@ -144,6 +173,9 @@ func buildEBNF(root bool, n node, seen map[node]bool, p *ebnfp, outp *[]*ebnfp) 
 			}
 		} else {
 			buildEBNF(false, n.expr, seen, p, outp)
+		}
+		if paren {
+			p.out += ")"
 		}
 		switch n.mode {
 		case groupMatchNonEmpty:
